@@ -1,4 +1,5 @@
 import PcbV.Lemmas.RandFile
+import PcbV.Gen.Translated
 /-
   C25 — Random-access files behave as arrays of fixed-length records.
 
@@ -211,6 +212,37 @@ theorem put_gap_counterexample :
     getBuffer (run true (opened 2 [] [0, 0]) ops) = [99, 100] ∧
     lof (run true (opened 2 [] [0, 0]) ops) = 10 := by
   decide
+
+/-! ### source tie: the record arithmetic of `RandomFile.eof`, `_set_record_pos` and `put` is translated
+mechanically from the current Python AST (`PcbV.Gen.Translated.rf*`, gen/py2lean.py, regenerated on every run)
+and proved equal to what the hand-written model computes; the translated definitions are also run against a
+real `RandomFile` (vlib/translated.py: check_randfile). -/
+
+theorem translated_rf_supported :
+    Gen.Translated.rfEof_supported = true ∧ Gen.Translated.rfSeekOffset_supported = true ∧
+    Gen.Translated.rfSeekRecpos_supported = true ∧ Gen.Translated.rfPutOffset_supported = true := by decide
+
+/-- `RandomFile.eof` as written in the source is the model's `eof` -/
+theorem translated_rfEof_eq (s : RF) :
+    Gen.Translated.rfEof (s.recpos : Int) (s.reclen : Int) (lof s : Int) = eof s := by
+  simp only [Gen.Translated.rfEof, eof, ← Int.natCast_mul, gt_iff_lt, Int.ofNat_lt]
+
+/-- `_set_record_pos(pos)` for an accepted record number (`1 ≤ p`, `check_pos_exact`): the host file offset it
+seeks to and the record pointer it stores are the model's -/
+theorem translated_rfSeek_eq (s : RF) (p : Nat) (hp : 1 ≤ p) :
+    ((setRecordPos s (some p)).fpos : Int) = Gen.Translated.rfSeekOffset (p : Int) (s.reclen : Int) ∧
+    ((setRecordPos s (some p)).recpos : Int) = Gen.Translated.rfSeekRecpos (p : Int) := by
+  simp only [setRecordPos, Gen.Translated.rfSeekOffset, Gen.Translated.rfSeekRecpos]
+  constructor
+  · rw [Int.natCast_mul, Int.natCast_sub hp]; rfl
+  · rw [Int.natCast_sub hp]; rfl
+
+/-- `put` writes the FIELD buffer at exactly the offset the source seeks to (`self._recpos * self.reclen`),
+the file being NUL-filled up to there -/
+theorem translated_rfPutOffset_eq {s : RF} (h : Inv s) :
+    ∃ o : Nat, (o : Int) = Gen.Translated.rfPutOffset (s.recpos : Int) (s.reclen : Int) ∧
+      (put true s none).file = writeAt (ljust s.file o) o (getBuffer s) :=
+  ⟨s.recpos * s.reclen, by simp [Gen.Translated.rfPutOffset], by rw [put_none_eq h]⟩
 
 /-! ### non-vacuity: the hypotheses are satisfiable on histories with gaps, repeats and implicit numbers -/
 
